@@ -22,7 +22,7 @@ def known():
     global _known
     if _known is None:
         try:
-            _known = set(json.load(open(INVENTORY)))
+            _known = json.load(open(INVENTORY))          # {name: {'api': bool}}
         except Exception:
             _known = None
             raise
